@@ -95,11 +95,12 @@ theorem shape_itemsFrom (L : List Lx) : ∀ p q, shape (itemsFrom p L) = shape (
     cases x <;> rfl
 
 /-- **comments are trivia**: a block or line comment anywhere in the text changes no item, only positions -/
-theorem C10_comment_invisible (L1 L2 : List Lx) (c : Lx) (hc : (∃ b, c = .blockC b) ∨ (∃ b, c = .lineC b)) (pos : Nat) :
+theorem C10_comment_invisible (L1 L2 : List Lx) (c : Lx)
+    (hc : (∃ b, c = .blockC b) ∨ (∃ b, c = .lineC b) ∨ (∃ b, c = .lineE b)) (pos : Nat) :
     shape (itemsFrom pos (L1 ++ c :: L2)) = shape (itemsFrom pos (L1 ++ L2)) := by
   induction L1 generalizing pos with
   | nil =>
-    rcases hc with ⟨b, rfl⟩ | ⟨b, rfl⟩ <;>
+    rcases hc with ⟨b, rfl⟩ | ⟨b, rfl⟩ | ⟨b, rfl⟩ <;>
       simp only [List.nil_append, itemsFrom, Lx.items] <;> exact shape_itemsFrom L2 _ _
   | cons x r ih =>
     simp only [List.cons_append, itemsFrom, shape, List.map_append] at ih ⊢
@@ -108,5 +109,13 @@ theorem C10_comment_invisible (L1 L2 : List Lx) (c : Lx) (hc : (∃ b, c = .bloc
 /-- non-vacuity: `m {/*x*/a;//c⏎}` is a well-formed lexeme sequence -/
 example : okL 0 [.word [109], .ws [32], .lb, .blockC [120], .word [97], .semi, .lineC [99], .rb] := by
   simp [okL, Lx.ok, renderL, Lx.bytes, nextIs, isTerminator, isSep, noStarSlash]
+
+/-- non-vacuity (after the repair of `lexCommentLine`): a line comment may end the text without a line break,
+    and the text lexes to the items of its statements followed by EOF -/
+example : okL 0 [.word [109], .ws [32], .lb, .word [97], .semi, .rb, .ws [32], .lineE [101, 110, 100]] := by
+  simp [okL, Lx.ok, renderL, Lx.bytes, nextIs, isTerminator, isSep]
+example : lex true (renderL [.word [109], .ws [32], .lb, .word [97], .semi, .rb, .ws [32], .lineE [101, 110, 100]]) =
+    some (itemsFrom 0 [.word [109], .ws [32], .lb, .word [97], .semi, .rb, .ws [32], .lineE [101, 110, 100]]) :=
+  lex_render _ (by simp [okL, Lx.ok, renderL, Lx.bytes, nextIs, isTerminator, isSep])
 
 end YV.C10
